@@ -1,0 +1,79 @@
+//! Observation hooks for external runtime monitors.
+//!
+//! This module only exists with the cargo feature `verif-hooks`, which is off by default.
+//! The hooks report internal events to thread-local sinks installed by a monitor; without a sink they do nothing.
+
+use std::cell::RefCell;
+
+/// The kind of an evaluation event.
+#[derive(Clone, Copy, Debug, PartialEq, Eq)]
+pub enum EvalEventKind {
+    /// Evaluation of a node starts, before any of its children is evaluated.
+    Enter,
+    /// All children of a node were evaluated successfully, and its operator is applied next.
+    Apply,
+}
+
+/// An evaluation event of a single node.
+#[derive(Clone, Copy, Debug, PartialEq, Eq)]
+pub struct EvalEvent {
+    /// The kind of the event.
+    pub kind: EvalEventKind,
+    /// The address of the node, used as its identity during one evaluation.
+    pub node: usize,
+    /// True if the node is evaluated with a mutable context.
+    pub mutable: bool,
+}
+
+/// The shape of one entry of the parser's root stack: operator kind and number of children.
+#[derive(Clone, Debug, PartialEq, Eq)]
+pub struct StackEntryShape {
+    /// The display name of the operator variant (`Debug` of the operator without payload).
+    pub operator: String,
+    /// True if the operator is a sequence operator (tuple or chain).
+    pub is_sequence: bool,
+    /// The number of children of the entry.
+    pub children: usize,
+}
+
+type EvalSink = Box<dyn FnMut(EvalEvent)>;
+type ParserSink = Box<dyn FnMut(&[StackEntryShape])>;
+
+thread_local! {
+    static EVAL_SINK: RefCell<Option<EvalSink>> = const { RefCell::new(None) };
+    static PARSER_SINK: RefCell<Option<ParserSink>> = const { RefCell::new(None) };
+}
+
+/// Installs (or removes) the evaluation event sink of the current thread and returns the previous one.
+pub fn set_eval_sink(sink: Option<EvalSink>) -> Option<EvalSink> {
+    EVAL_SINK.with(|cell| cell.replace(sink))
+}
+
+/// Installs (or removes) the parser step sink of the current thread and returns the previous one.
+pub fn set_parser_sink(sink: Option<ParserSink>) -> Option<ParserSink> {
+    PARSER_SINK.with(|cell| cell.replace(sink))
+}
+
+pub(crate) fn eval_event(kind: EvalEventKind, node: usize, mutable: bool) {
+    EVAL_SINK.with(|cell| {
+        if let Ok(mut sink) = cell.try_borrow_mut() {
+            if let Some(sink) = sink.as_mut() {
+                sink(EvalEvent {
+                    kind,
+                    node,
+                    mutable,
+                });
+            }
+        }
+    });
+}
+
+pub(crate) fn parser_step(shapes: impl FnOnce() -> Vec<StackEntryShape>) {
+    PARSER_SINK.with(|cell| {
+        if let Ok(mut sink) = cell.try_borrow_mut() {
+            if let Some(sink) = sink.as_mut() {
+                sink(&shapes());
+            }
+        }
+    });
+}
